@@ -45,6 +45,7 @@ type Interp struct {
 	ParamVal func(p *ssa.Parameter) Val
 	Facts    []Lin
 	MaxPaths int
+	depth    int
 	fresh    int
 	Paths    []*Path
 }
@@ -159,7 +160,86 @@ func (in *Interp) block(b *ssa.BasicBlock, pred *ssa.BasicBlock, st *state) {
 	}
 	st.visited[b]++
 	st.trace = append(st.trace, b.Index)
-	for _, ins := range b.Instrs {
+	in.blockFrom(b, 0, pred, st)
+}
+
+// pureIntHelper: f takes and returns integers only and has no effects.
+func pureIntHelper(f *ssa.Function) bool {
+	if f == nil || len(f.Blocks) == 0 || f.Signature.Results().Len() != 1 {
+		return false
+	}
+	isInt := func(t types.Type) bool {
+		b, ok := t.Underlying().(*types.Basic)
+		return ok && b.Info()&types.IsInteger != 0
+	}
+	if !isInt(f.Signature.Results().At(0).Type()) {
+		return false
+	}
+	for _, p := range f.Params {
+		if !isInt(p.Type()) {
+			return false
+		}
+	}
+	for _, b := range f.Blocks {
+		for _, ins := range b.Instrs {
+			switch ins.(type) {
+			case *ssa.Store, *ssa.Call, *ssa.Go, *ssa.Defer, *ssa.MapUpdate, *ssa.Send, *ssa.Panic:
+				return false
+			}
+		}
+	}
+	return true
+}
+
+func (in *Interp) blockFrom(b *ssa.BasicBlock, from int, pred *ssa.BasicBlock, st *state) {
+	for idx := from; idx < len(b.Instrs); idx++ {
+		ins := b.Instrs[idx]
+		// a pure integer helper (max/min/round-up ...): interpret it and continue once per outcome
+		if call, ok := ins.(*ssa.Call); ok && in.depth < 2 {
+			if f := call.Call.StaticCallee(); f != nil && pureIntHelper(f) {
+				args := map[*ssa.Parameter]Val{}
+				okArgs := true
+				for i, p := range f.Params {
+					v := in.eval(call.Call.Args[i], st)
+					if _, isLin := v.(Lin); !isLin {
+						okArgs = false
+					}
+					args[p] = v
+				}
+				if okArgs {
+					sub := &Interp{Fn: f, ParamVal: func(p *ssa.Parameter) Val { return args[p] }, Facts: st.facts, MaxPaths: 16, depth: in.depth + 1}
+					sub.Run()
+					var outs []*Path
+					for _, pt := range sub.Paths {
+						if pt.Panics || len(pt.Unknown) > 0 || len(pt.Ret) != 1 {
+							outs = nil
+							break
+						}
+						if _, isLin := pt.Ret[0].(Lin); !isLin {
+							outs = nil
+							break
+						}
+						outs = append(outs, pt)
+					}
+					if len(outs) == 1 {
+						st.vals[call] = outs[0].Ret[0]
+						st.facts = outs[0].Facts
+						continue
+					}
+					if len(outs) > 1 {
+						for _, pt := range outs {
+							s2 := st.clone()
+							s2.vals[call] = pt.Ret[0]
+							s2.facts = append([]Lin(nil), pt.Facts...)
+							if !contradictory(s2.facts) {
+								in.blockFrom(b, idx+1, pred, s2)
+							}
+						}
+						return
+					}
+				}
+			}
+		}
 		switch x := ins.(type) {
 		case *ssa.Phi:
 			for i, p := range b.Preds {
